@@ -1,30 +1,36 @@
 (* C16 — proofs about Model/Heartbeat.v and Spec/HeartbeatSpec.v. *)
-From Verif Require Import Base.Prelude Model.Heartbeat Spec.HeartbeatSpec.
+From Verif Require Import Base.Prelude Gen.GenConsts Model.Heartbeat Spec.HeartbeatSpec.
 
 Arguments running : simpl never.
 
 (* ------------------------------------------------------------------ the period *)
 
-Lemma period_of_bounds two d : 0 <= two -> 0 < d -> 0 < period_of two d <= d.
-Proof. intros Ht Hd. unfold period_of. destruct (Z.ltb_spec two d); lia. Qed.
+(* the generated constants satisfy what the bounds need: 0 <= subtrahend <= threshold
+   (checked by computation on what the source says now) *)
+Lemma consts_ok : 0 <= heartbeat_subtract_ms <= heartbeat_threshold_ms.
+Proof. unfold heartbeat_subtract_ms, heartbeat_threshold_ms. split; apply Z.leb_le; vm_compute; reflexivity. Qed.
+
+Lemma period_of_bounds thr sub d : 0 <= sub <= thr -> 0 < d -> 0 < period_of thr sub d <= d.
+Proof. intros Ht Hd. unfold period_of. destruct (Z.ltb_spec thr d); lia. Qed.
 
 Lemma period_bounds t : 0 < t -> 0 < period t <= t.
-Proof. intros H. apply period_of_bounds; lia. Qed.
+Proof. intros H. apply period_of_bounds; [exact consts_ok | exact H]. Qed.
 
 Lemma period_ns_bounds d : 0 < d -> 0 < period_ns d <= d.
-Proof. intros H. apply period_of_bounds; lia. Qed.
+Proof. intros H. pose proof consts_ok. apply period_of_bounds; [lia | exact H]. Qed.
 
-Lemma period_above t : 2000 < t -> period t = t - 2000.
-Proof. intros H. unfold period, period_of. destruct (Z.ltb_spec 2000 t); lia. Qed.
+Lemma period_above t : heartbeat_threshold_ms < t -> period t = t - heartbeat_subtract_ms.
+Proof. intros H. unfold period, period_of. destruct (Z.ltb_spec heartbeat_threshold_ms t); lia. Qed.
 
-Lemma period_upto t : t <= 2000 -> period t = t.
-Proof. intros H. unfold period, period_of. destruct (Z.ltb_spec 2000 t); lia. Qed.
+Lemma period_upto t : t <= heartbeat_threshold_ms -> period t = t.
+Proof. intros H. unfold period, period_of. destruct (Z.ltb_spec heartbeat_threshold_ms t); lia. Qed.
 
 (* the millisecond model is the nanosecond computation of the code *)
 Lemma period_ns_ms t : period_ns (t * 1000000) = period t * 1000000.
 Proof.
   unfold period_ns, period, period_of.
-  destruct (Z.ltb_spec 2000000000 (t * 1000000)); destruct (Z.ltb_spec 2000 t); lia.
+  destruct (Z.ltb_spec (heartbeat_threshold_ms * 1000000) (t * 1000000));
+    destruct (Z.ltb_spec heartbeat_threshold_ms t); lia.
 Qed.
 
 (* ------------------------------------------------------------------ invariants *)
